@@ -376,3 +376,141 @@ func edgeDetermines(pred, blk *ssa.BasicBlock, leaf func(ssa.Value) bool) bool {
 	}
 	return false
 }
+
+// ---- virtual inlining of same-package helpers
+
+// effSite: an instruction `actual` matching a predicate is executed at instruction `at` of
+// the function being examined: either at == actual, or `at` is the call (or closure call)
+// in that function to a helper of the same package whose body (transitively) contains it.
+type effSite struct {
+	at     ssa.Instruction
+	actual ssa.Instruction
+	via    *ssa.Function // nil when direct
+}
+
+// effectiveSites finds where in f instructions matching match are executed, looking into
+// helpers of the same package that f calls statically and into closures it creates and
+// calls, to the given depth.  Rules that anchor on a function by name use it so that
+// extracting part of the function into a helper does not hide the construct.
+func effectiveSites(f *ssa.Function, match func(ssa.Instruction) bool, depth int) []effSite {
+	var out []effSite
+	seen := map[*ssa.Function]bool{f: true}
+	var contains func(g *ssa.Function, d int) ssa.Instruction
+	contains = func(g *ssa.Function, d int) ssa.Instruction {
+		if seen[g] || d < 0 || len(g.Blocks) == 0 {
+			return nil
+		}
+		seen[g] = true
+		defer delete(seen, g)
+		for _, b := range g.Blocks {
+			for _, ins := range b.Instrs {
+				if match(ins) {
+					return ins
+				}
+				if callee := helperCallee(g, ins); callee != nil {
+					if a := contains(callee, d-1); a != nil {
+						return a
+					}
+				}
+			}
+		}
+		return nil
+	}
+	for _, b := range f.Blocks {
+		for _, ins := range b.Instrs {
+			if match(ins) {
+				out = append(out, effSite{ins, ins, nil})
+				continue
+			}
+			if callee := helperCallee(f, ins); callee != nil {
+				if a := contains(callee, depth-1); a != nil {
+					out = append(out, effSite{ins, a, callee})
+				}
+			}
+		}
+	}
+	return out
+}
+
+// helperCallee: ins is a call (or go/defer) of a function of the same package as g with a
+// body, or of a closure created in g; returns that function.
+func helperCallee(g *ssa.Function, ins ssa.Instruction) *ssa.Function {
+	call, ok := ins.(ssa.CallInstruction)
+	if !ok {
+		return nil
+	}
+	if callee := call.Common().StaticCallee(); callee != nil {
+		if len(callee.Blocks) > 0 && fnPkgPath(callee) == fnPkgPath(g) && callee != g {
+			return callee
+		}
+		return nil
+	}
+	// call of a closure value held in a local
+	v := call.Common().Value
+	for i := 0; i < 4 && v != nil; i++ {
+		switch x := v.(type) {
+		case *ssa.MakeClosure:
+			if fn, ok := x.Fn.(*ssa.Function); ok {
+				return fn
+			}
+			return nil
+		case *ssa.UnOp:
+			if vals, simple := cellValues(x.X); simple && len(vals) == 1 {
+				v = vals[0]
+				continue
+			}
+			return nil
+		case *ssa.Phi:
+			return nil
+		default:
+			return nil
+		}
+	}
+	return nil
+}
+
+// calleeNamed: ins is a static call of a function with that simple name.
+func calleeNamed(ins ssa.Instruction, names ...string) bool {
+	call, ok := ins.(ssa.CallInstruction)
+	if !ok || call.Common().StaticCallee() == nil {
+		return false
+	}
+	for _, n := range names {
+		if call.Common().StaticCallee().Name() == n {
+			return true
+		}
+	}
+	return false
+}
+
+// withHelpers: f together with the same-package helpers and closures it (transitively)
+// calls, to the given depth; for rules that only ask whether a construct exists in the code
+// that implements f.
+func withHelpers(f *ssa.Function, depth int) []*ssa.Function {
+	out := []*ssa.Function{f}
+	seen := map[*ssa.Function]bool{f: true}
+	var walk func(g *ssa.Function, d int)
+	walk = func(g *ssa.Function, d int) {
+		if d <= 0 {
+			return
+		}
+		for _, b := range g.Blocks {
+			for _, ins := range b.Instrs {
+				if h := helperCallee(g, ins); h != nil && !seen[h] {
+					seen[h] = true
+					out = append(out, h)
+					walk(h, d-1)
+				}
+			}
+		}
+		for _, a := range g.AnonFuncs {
+			if !seen[a] {
+				seen[a] = true
+				out = append(out, a)
+				walk(a, d-1)
+			}
+		}
+	}
+	walk(f, depth)
+	return out
+}
